@@ -394,9 +394,17 @@ struct StorHarness : Harness
     }
 
     // ------------------------------------------------------ generation
-    static std::string gen_append(Rng& g)
+    static std::string gen_append(Rng& g, bool may_unpad = false)
     {
-        char b[128];
+        char b[160];
+        if (may_unpad && g.chance(0.3)) {
+            snprintf(b, sizeof(b),
+                     "append slot=%%d nf=%d w=%d h=%d t=%d vary=%d id=%llu nopad=1",
+                     (int)g.range(1, 5), (int)g.range(1, 14), (int)g.range(1, 9),
+                     (int)g.below(8), g.chance(0.4) ? 1 : 0,
+                     (unsigned long long)g.below(1000000));
+            return b;
+        }
         snprintf(b, sizeof(b), "append slot=%%d nf=%d w=%d h=%d t=%d vary=%d id=%llu",
                  (int)g.range(1, 5), (int)g.range(1, 14), (int)g.range(1, 9),
                  (int)g.below(8), g.chance(0.4) ? 1 : 0,
@@ -442,7 +450,7 @@ struct StorHarness : Harness
         ops.push_back(b);
         int na = (int)g.range(1, 5);
         for (int i = 0; i < na; ++i) {
-            std::string a = gen_append(g);
+            std::string a = gen_append(g, kind == "raw");
             snprintf(b, sizeof(b), a.c_str(), slot);
             ops.push_back(b);
         }
@@ -458,7 +466,7 @@ struct StorHarness : Harness
                 ops.push_back(b);
                 int nb = (int)g.range(1, 3);
                 for (int i = 0; i < nb; ++i) {
-                    std::string a = gen_append(g);
+                    std::string a = gen_append(g, kind == "raw");
                     snprintf(b, sizeof(b), a.c_str(), slot);
                     ops.push_back(b);
                 }
@@ -666,7 +674,10 @@ struct StorHarness : Harness
             f.pixels.resize((size_t)f.w * f.h * bpp(f.type));
             for (auto& px : f.pixels)
                 px = (uint8_t)r.next();
-            size_t img = (f.pixels.size() + 7) & ~(size_t)7;
+            // the runtime pads every frame to a multiple of 8; a storage
+            // device driven directly may be handed unpadded ones (nopad=1)
+            size_t img = op.i("nopad", 0) ? f.pixels.size()
+                                          : ((f.pixels.size() + 7) & ~(size_t)7);
             size_t off = out->size();
             out->resize(off + sizeof(struct VideoFrame) + img, 0xA5);
             struct VideoFrame hdr;
